@@ -18,7 +18,8 @@ RULE = ("same program / history generator as C01 (DAGs of 3-12 nodes, every sign
         "always-changed and parity compare, derived signals and type-erased wrappers, conditional / untracked / repeated reads, "
         "equal-value writes, arena signals / memos disposed in the middle of the history), half of the "
         "cases with 1-3 effects (Effect::new, RenderEffect, watch, isomorphic; some writing signals) and schedules (poll the "
-        "k-th ready task, run to idle). Observation = every body invocation with the values it read. A case is non-trivial "
+        "k-th ready task, run to idle); plus the 'zones' (untrack zones with several reads), 'immediate' (ImmediateEffect subscribers, "
+        "oracle only) and 'deep' (chains of 270-1000 memos) families of C01. Observation = every body invocation with the values it read. A case is non-trivial "
         "when some body ran at least twice; distinct = distinct case hash.")
 TRUSTED = [
     "Coq 8.16.1 kernel (coqc); no axioms: every theorem of Properties_C09.v is 'Closed under the global context'",
@@ -33,6 +34,14 @@ ASSUMPTIONS = [
     "DAG by creation order; static graphs (no node created inside a computation)",
     "a memo 'recomputed to an unequal value' is read as 'its compare function reported changed' (always-changed memos count as "
     "changed, a parity-compare memo only when the parity changed); disposing a source is not a change",
+    "ImmediateEffect (effect/immediate.rs, not among the anchors; not in the Coq model: 'immediate' cases are oracle-only) "
+    "reacts in the middle of the marking phase of a write and re-enters by design ('they might recurse'): its own "
+    "invocations, the memo runs it pulls while the marking is under way, and the next run of a memo pulled that way (the "
+    "marks of the same write may still reach it) are not held to 'once per change'; every other memo run is. Observed on the "
+    "unchanged code: an ImmediateEffect that reads a memo runs twice for one change of it (once from the memo's "
+    "mark_dirty of its subscribers inside the effect's source check, once because that check then reports a change)",
+    "deep chains (270-1000 memos) are part of the generated graphs; stacked diamonds are kept to at most 4 per chain "
+    "(the push phase re-propagates on every incoming path)",
 ]
 LEVEL_TEXT = ("Coq proofs, over the same executable model as C01/C02 instrumented with ghost causes, that a memo body is invoked "
               "again only after a tracked source was written or a tracked memo changed, at most once per change, never because "
@@ -42,7 +51,7 @@ LEVEL_NOTE = "see Properties_C09.v; trusted: Coq kernel, extraction, Rust harnes
 TECHNIQUE = "Coq proof (invariant with ghost cause sets) + differential correspondence of the extracted model with the Rust code"
 
 
-def generate(rng, tier):
+def _main_stream(rng, tier):
     n1, n2 = (8000, 10000) if tier == "quick" else (80000, 100000)
     for i in range(n1):
         prog = X.gen_program(rng, rng.randint(3, 10), 0, p_always=0.2)
@@ -52,7 +61,23 @@ def generate(rng, tier):
         prog = X.gen_program(rng, rng.randint(4, 11), rng.randint(1, 3), p_always=0.15)
         ops = X.gen_ops(rng, prog, rng.randint(8, 36), w=(0.32, 0.05, 0.2, 0.18, 0.2, 0.05), vals=(0, 1, 1, 2), p_drop=0.3)
         yield dict(case=C.norm([prog, ops]), kind="memos+effects", compare=True)
+    for i in range(1000 if tier == "quick" else 10000):
+        yield dict(case=C.norm(X.gen_zone_case(rng)), kind="zones", compare=True)
+    # ImmediateEffect subscribers (not modelled: oracle only; memo invocations started after each write are checked)
+    for i in range(2000 if tier == "quick" else 20000):
+        ne = rng.choice([1, 1, 2])
+        prog = X.gen_program(rng, rng.randint(ne + 2, 9), ne, eff_kinds=(5,), allow_wr=False, p_untr=0.05, p_der=0.2, p_always=0.15)
+        ops = X.gen_ops(rng, prog, rng.randint(6, 30), w=(0.45, 0.05, 0.5, 0.0, 0.0, 0.0), vals=(0, 1, 1, 2))
+        yield dict(case=C.norm([prog, ops]), kind="immediate", compare=False)
 
+
+def generate(rng, tier):
+    deep = []
+    for i in range(4 if tier == "quick" else 16):
+        depth = rng.randint(270, 400) if (tier == "quick" or i % 3) else rng.randint(600, 1000)
+        deep.append(dict(case=C.norm(X.gen_deep_case(rng, depth, n_diamonds=rng.choice([0, 2, 4]), with_effect=(i % 2 == 1))),
+                         kind="deep", compare=True))
+    return X.interleave(_main_stream(rng, tier), deep, 5000 if tier == "quick" else 12000)
 
 def oracle(item, impl):
     return X.run_oracle(item, impl, X.C09Hooks())
